@@ -51,6 +51,29 @@ fn span_info(tcx: TyCtxt<'_>, span: Span) -> (String, i128, bool) {
     (file, lo.line as i128, exp)
 }
 
+/// Outermost macro of the expansion a span comes from: "<crate>::<name>".
+fn mac_info(tcx: TyCtxt<'_>, span: Span) -> Option<String> {
+    if !span.from_expansion() {
+        return None;
+    }
+    let mut last = None;
+    for ed in span.macro_backtrace() {
+        last = Some(ed);
+    }
+    let ed = last?;
+    let name = match ed.kind {
+        rustc_span::ExpnKind::Macro(_, sym) => sym.to_string(),
+        rustc_span::ExpnKind::Desugaring(d) => format!("desugar:{:?}", d),
+        rustc_span::ExpnKind::AstPass(p) => format!("astpass:{:?}", p),
+        rustc_span::ExpnKind::Root => "root".to_string(),
+    };
+    let krate = match ed.macro_def_id {
+        Some(d) => tcx.crate_name(d.krate).to_string(),
+        None => "?".to_string(),
+    };
+    Some(format!("{}::{}", krate, name))
+}
+
 struct Cx<'a, 'tcx> {
     tcx: TyCtxt<'tcx>,
     body: &'a Body<'tcx>,
@@ -382,6 +405,7 @@ impl<'a, 'tcx> Cx<'a, 'tcx> {
                 ("rv", self.rvalue(&b.1)),
                 ("line", J::I(line)),
                 ("exp", J::B(exp)),
+                ("mac", J::opt_s(mac_info(self.tcx, s.source_info.span))),
             ])),
             StatementKind::SetDiscriminant { place, variant_index } => Some(J::O(vec![
                 ("k", J::s("setdiscr")),
@@ -498,6 +522,7 @@ impl<'a, 'tcx> Cx<'a, 'tcx> {
         }
         v.push(("line", J::I(line)));
         v.push(("exp", J::B(exp)));
+        v.push(("mac", J::opt_s(mac_info(tcx, t.source_info.span))));
         J::O(v)
     }
 }
